@@ -24,7 +24,7 @@ from vlib.proto import hexs, unhex
 
 HARNESS = "api_life"
 # findings this module knows how to recognise (entries in findings.d/life.json)
-FINDINGS = ["F19", "F21", "F111", "F112", "F113", "F114", "F115", "F116", "F117", "F118", "F119", "F120", "F121", "F122", "F123", "F124", "F125", "F126", "F127", "F128"]
+FINDINGS = ["F19", "F21", "F111", "F112", "F113", "F114", "F115", "F116", "F117", "F118", "F119", "F150", "F151", "F152", "F153", "F154", "F155", "F156", "F157", "F158"]
 # a leak report is symbolized by an external process per frame batch: keep it short
 ENV = {"LSAN_OPTIONS": "exitcode=96:max_leaks=2"}
 NSLOT = 6
@@ -1429,7 +1429,7 @@ class HistGen:
                 "%s | %s" % (plain, "/" + plain.split("/")[1]), "..", ".", "*", "%s/.." % plain, "boolean(%s)" % plain, "current()/..", "descendant-or-self::node()",
                 "%s/ancestor::*" % plain, "%s/following-sibling::*" % plain, "%s[position() mod 2 = 1]" % plain, "not(%s)" % plain, "count(%s/*) + 1" % plain,
 "/*", "self::node()", "true() and %s" % plain, "(%s)[2]" % plain]
-        # (`preceding-sibling::*[1]` is left out: it runs into F125 - get_node_pos() restarts its DFS with a stale element - far more often
+        # (`preceding-sibling::*[1]` is left out: it runs into F155 - get_node_pos() restarts its DFS with a stale element - far more often
         # than the ancestor axis does)
         # node-set -> string casts (`. = 'a'`, string(), sum(), re-match()) and deref() of other than leafref / instance-identifier leaves are
         # left to the XPath property (UB in cast_string_recursive with empty values; deref() reads the value union as a path): not ownership matters
@@ -1830,10 +1830,10 @@ UB_SIGNATURES = [
     # (finding, function of frame #0, fragment of the UBSan message, extra condition on the history)
     ("F117", "lyht_dup_inst_ht_equal_cb", "applying zero offset to null pointer", None),
     ("F118", "lyd_diff_userord_attrs", "applying non-zero offset", None),
-    ("F120", "rb_compare_lists", "member access within null pointer", _has_destruct_merge),
-    ("F126", "lyb_print_node_any", "null pointer passed as argument", lambda line: _ops_with(line, ("acs",), lambda n, r: r[3] == "~")),
-    ("F127", "lyplg_type_validate_leafref", "member access within null pointer of type 'struct ly set'", lambda line: bool(_ctxopts(line) & 0x400)),
-    ("F125", "get_node_pos", "member access within null pointer", lambda line: _ops_with(line, ("fx", "ex"), lambda n, r: True)),
+    ("F150", "rb_compare_lists", "member access within null pointer", _has_destruct_merge),
+    ("F156", "lyb_print_node_any", "null pointer passed as argument", lambda line: _ops_with(line, ("acs",), lambda n, r: r[3] == "~")),
+    ("F157", "lyplg_type_validate_leafref", "member access within null pointer of type 'struct ly set'", lambda line: bool(_ctxopts(line) & 0x400)),
+    ("F155", "get_node_pos", "member access within null pointer", lambda line: _ops_with(line, ("fx", "ex"), lambda n, r: True)),
 ]
 
 
@@ -1895,17 +1895,17 @@ def classify(component, what, case):
         return "F21"
     if sf and law in ("sfail", "warn") and only_yin_changes:
         # every dictionary change of the history happened in a failed YIN parse
-        return "F122"
+        return "F152"
     if sf and law == "sfail" and all(i in failed_yin for i in sf):
         # the law names the ops itself: all of them failed YIN parses, whatever else went wrong in the history
-        return "F122"
+        return "F152"
     if law == "eint" and _has_f19_op(line):
         # second face of F19: the double insertion / the removal of the stale record fails inside the hash table code
         return "F19"
     if law in ("integ", "leak", "drec", "dref", "warn") and _ops_with(line, ("is",), lambda n, r: len(r) > 4 and r[4] == "1"):
         return "F112"
     if law in ("integ", "leak", "drec", "dref", "warn") and _ops_with(line, ("is", "ic"), lambda n, r: len(r) > 4 and r[4] == "2"):
-        return "F123"
+        return "F153"
     if law in ("drec", "dref", "mid", "warn", "leak") and _has_multierr_parse(line) and \
             (law != "leak" or leakat.startswith(("lyd_create_", "lyd_parser_", "lydxml_", "lydjson_", "lyd_new_implicit", "ly_set_", "-"))):
         return "F113"
@@ -1916,14 +1916,14 @@ def classify(component, what, case):
         return "F116"
     if law in ("leak", "drec", "dref", "warn", "mid") and _failed_parse_with_any_content(line, rep) and \
             ("<lydxml_subtree" in leakat or "<lydjson_" in leakat or leakat.startswith(("lyds_", "lyd_create_meta<lyds_"))):
-        return "F128"
+        return "F158"
     if law == "leak" and _has_lyb_parse_without_opaq(line) and "lyb_parse_prefix_data" in leakat:
-        return "F121"
+        return "F151"
     if law in ("leak", "drec", "dref", "warn", "mid") and leakat.startswith("lyd_dup_r<lyd_dup<lyd_diff_apply_r") and _ops_with(line, ("da",), lambda n, r: True):
         rcs = re.search(r"rc=(\S+)", rep)
         rcs = rcs.group(1).split(",") if rcs else []
         if any(o[0] == "da" and i < len(rcs) and rcs[i] not in ("0", "-1") for i, o in enumerate(decode_ops(line))):
-            return "F124"
+            return "F154"
     return None
 
 
